@@ -143,7 +143,7 @@ Definition decompose_sk (sl : skeleton_t) : option (bounds * nat) :=
       let b0 : bounds := repeat (None, None) (S lp) in
       match find_constant_op sl with
       | Some cp =>
-          let fuel := 64 + 8 * total_legs sl + 4 * length sl in
+          let fuel := 64 + 8 * total_legs sl + 8 * length sl in
           main_loop fuel sl b0 [(cp, Inputs); (cp, Outputs)] 0
       | None =>
           Some (map (fun s => match s with Some _ => (Some 0, Some 0) | None => (None, None) end)
